@@ -36,9 +36,9 @@ run)
   RES=""
   for C in $CHECKS; do
     ./run.sh $C quick > /tmp/benign.out 2> /tmp/benign.err; rc=$?
-    fams=$(grep -o 'family=[A-Za-z0-9_:]*' /tmp/benign.err | sort -u | head -3 | tr '\n' ' ')
+    fams=$(grep -a -o 'family=[A-Za-z0-9_:]*' /tmp/benign.err | sort -u | head -3 | tr '\n' ' ')
     RES="$RES$C=$rc "
-    [ $rc -ne 0 ] && { echo "  $ID: $C exit=$rc $fams"; grep -m2 'family=' /tmp/benign.err | cut -c1-400; cp /tmp/benign.err /tmp/benign.$ID.$C.err; }
+    [ $rc -ne 0 ] && { echo "  $ID: $C exit=$rc $fams"; grep -a -m2 'family=' /tmp/benign.err | cut -c1-400; cp /tmp/benign.err /tmp/benign.$ID.$C.err; }
   done
   echo "$ID: $RES"
   python3 - "/verif/seeded/$ID/meta.json" "$RES" <<'PY'
